@@ -12,6 +12,7 @@
 #include <scn/generator.h>
 #include <scn/adapters.h>
 #include <scn/storage.h>
+#include <scn/async.h>
 #define RUN(name, nthreads, wd, call) if (o.want(name)) { vf::report R("C03", name, o); vf::g_active_report = &R; vf::team T(nthreads, o, wd); call; T.export_hits(R); R.write(); vf::g_active_report = nullptr; }
 int main(int argc, char **argv) {
     vf::opts o(argc, argv);
@@ -32,5 +33,7 @@ int main(int argc, char **argv) {
     RUN("aggregator_programs", 2, true, scn::aggregator_programs(o, R, T, o.cases));
     RUN("adapter_matrix", 2, true, scn::adapter_matrix(o, R, T, o.cases));
     RUN("storage_mt", 2, true, scn::storage_mt<true>(o, R, T, o.cases));
+    RUN("async_start_race", 2, true, scn::async_start_race(o, R, T, o.cases));
+    RUN("queue_unblock_contended", std::min(o.threads, 4), true, scn::queue_unblock_contended(o, R, T, o.cases));
     return 0;
 }
